@@ -235,6 +235,7 @@ template<typename Fn> std::string probe_in_child(Fn&& fn, std::string& report) {
 // forked child first, throttled), require the read-out of `live`, then let `after` reset / update it further.
 // Called from inside adapters (a LibScope is open); reports under the family of the program in flight.
 inline std::string first_diff(const std::string& a, const std::string& b);
+inline std::string dstr(double d);
 template<typename Sk, typename ReadFn, typename AfterFn>
 void reuse_consumed_operand(Sk& consumed, Sk& live, Rng& r, ReadFn read, AfterFn after) {
   const std::string fam = c19ctx().family;
@@ -292,6 +293,18 @@ inline std::string first_diff(const std::string& a, const std::string& b) {
 // cannot be instantiated at all (then every copy-assignment form is left out of the program)
 template<typename F, typename = void> struct can_copy_assign: std::true_type {};
 template<typename F> struct can_copy_assign<F, std::void_t<decltype(F::NO_COPY_ASSIGN)>>: std::false_type {};
+
+// Self-merge x.merge(x) through an lvalue reference.  An adapter opts in with
+//   static const int SELF_MERGE = SM_DOUBLES | SM_REFUSES | SM_IDEMPOTENT;
+//   static SelfMergeFacts self_merge_facts(const Obj&, const Cfg&);
+// SM_DOUBLES   : the sketch then describes its stream twice: every number in `doubles` doubles (relative 1e-9),
+//                the string `same` (min/max, configuration) is unchanged
+// SM_REFUSES   : the call throws and leaves the read-out unchanged (if it does not throw it must double)
+// SM_IDEMPOTENT: set semantics, the content string `same` is unchanged
+enum { SM_NONE = 0, SM_DOUBLES = 1, SM_REFUSES = 2, SM_IDEMPOTENT = 3 };
+struct SelfMergeFacts { std::vector<double> doubles; std::string same; };
+template<typename F, typename = void> struct self_merge_mode { static const int value = SM_NONE; };
+template<typename F> struct self_merge_mode<F, std::void_t<decltype(F::SELF_MERGE)>> { static const int value = F::SELF_MERGE; };
 
 // ------------------------------------------------------------------ the lifecycle program
 template<typename F> struct Program {
@@ -572,6 +585,48 @@ template<typename F> struct Program {
     cnt("swap");
     verify_all("swap");
   }
+  static constexpr int SM = self_merge_mode<F>::value;
+  template<typename FF = F> SelfMergeFacts sm_facts(const Obj& o) { if constexpr (self_merge_mode<FF>::value != SM_NONE) return FF::self_merge_facts(o, cfg); else return SelfMergeFacts(); }
+  void op_self_merge(S* x) {
+    if constexpr (SM == SM_NONE) { op_mutate(x); return; }
+    tr("self-merge#" + std::to_string(find_idx(x)));
+    count(fam + ".self_merge_in_mode_" + F::mode(x->co(), cfg));
+    cnt("self_merge_attempt");
+    Obj& ref = x->o();
+    const Obj& same = *static_cast<const Obj*>(static_cast<const void*>(x->mem));
+    if (!probe("self-merge", [&] { try { F::merge_ref(ref, same, cfg); } catch (const std::exception&) {} (void)F::readout(same, cfg); })) return;
+    const SelfMergeFacts before = sm_facts(same);
+    bool threw = false; std::string what;
+    { LibScope ls("self-merge"); try { F::merge_ref(ref, same, cfg); } catch (const std::exception& e) { Exempt ex; threw = true; what = e.what(); } }
+    const std::string ro_before = x->ro;
+    if (threw) {
+      cnt("self_merge_refused");
+      checked();
+      if (SM != SM_REFUSES) fail(fam + "|self-merge|throws", "x.merge(x) threw '" + what + "' trace=" + trace);
+      // a refusal must leave the object as it was; after an unexpected exception the object is only required to die cleanly
+      if (SM == SM_REFUSES) expect_eq(*x, ro_before, "self-merge|refused-but-state-changed", "x.merge(x) threw but changed x");
+      else { destroy(x, "destroy"); verify_all("self-merge"); return; }
+    } else if (SM == SM_IDEMPOTENT) {
+      // compared on the adapter's `same` facts (the content), not on the full read-out: cached counters may be refreshed
+      x->ro = read(*x);
+      const SelfMergeFacts after = sm_facts(same);
+      checked();
+      if (after.same != before.same) fail(fam + "|self-merge|set-operation-with-itself-changed-state", "combining a set-like object with itself changed its content: " + first_diff(before.same, after.same) + " trace=" + trace);
+    } else {
+      x->ro = read(*x);   // reads every retained item: dead / moved-from items are reported by the item registry
+      const SelfMergeFacts after = sm_facts(same);
+      checked();
+      if (after.same != before.same) fail(fam + "|self-merge|invariant-facts-changed", "x.merge(x): expected unchanged '" + before.same + "' got '" + after.same + "' trace=" + trace);
+      for (size_t i = 0; i < before.doubles.size() && i < after.doubles.size(); ++i) {
+        checked();
+        const double want = 2 * before.doubles[i];
+        if (std::fabs(after.doubles[i] - want) > 1e-9 * std::max(1.0, std::fabs(want)))
+          fail(fam + "|self-merge|not-stream-twice", "x.merge(x): quantity #" + std::to_string(i) + " was " + dstr(before.doubles[i]) + " and is " + dstr(after.doubles[i]) + " instead of twice that, trace=" + trace);
+      }
+    }
+    cnt("self_merge");
+    verify_all("self-merge", x);
+  }
   void op_merge_ref(S* x, S* y) {
     tr("merge#" + std::to_string(find_idx(x)) + "<-#" + std::to_string(find_idx(y)));
     { LibScope ls("merge-const-ref"); F::merge_ref(x->o(), y->co(), cfg); }
@@ -613,7 +668,8 @@ template<typename F> struct Program {
     if (!x) { S* m = pick_moved_from(); if (m) destroy(m, "destroy-moved-from"); return; }
     const uint64_t c = r.below(100);
     const bool room = pool.size() < 6;
-    if (c < 28) op_mutate(x);
+    if (c < 24) op_mutate(x);
+    else if (c < 28) op_self_merge(x);
     else if (c < 33) op_query(x);
     else if (c < 38) { if (room) op_construct(); else destroy(pick_any(), "destroy"); }
     else if (c < 45) { if (room) op_copy_ctor(x); else destroy(pick_any(), "destroy"); }
